@@ -169,7 +169,7 @@ static void run_fixed(Report& rep, VSys sys, size_t leaf_cap) {
 // ---- un: unions ---------------------------------------------------------------------------------------------------
 static uint64_t gcd64(uint64_t a, uint64_t b) { while (b) { uint64_t t = a % b; a = b; b = t; } return a; }
 
-struct OpndDist { std::vector<Leaf> leaves; std::vector<std::string> canon; uint64_t lcm_r; };
+struct OpndDist { std::vector<Leaf> leaves; std::vector<std::string> canon; uint64_t lcm_r; std::string failed; };
 static const OpndDist& operand_dist(const OperandSpec& sp, size_t slot, Report& rep) {
   static std::map<std::string, OpndDist> cache;
   std::string key = str(slot) + "/" + str(sp.k) + ":" + join_w(sp.w);
@@ -183,6 +183,7 @@ static const OpndDist& operand_dist(const OperandSpec& sp, size_t slot, Report& 
   OpndDist od; od.leaves = d; od.lcm_r = 1;
   for (size_t i = 0; i < d.size(); ++i) {
     std::unique_ptr<VSys::State> s = pt.replay(d[i].hist, nullptr);
+    if (!s->broken.empty()) od.failed = s->broken;   // the operand's own stream already breaks a clause (reported by the fix/seq scenarios)
     std::string c; canon_sketch(c, *s->sk); od.canon.push_back(c);
     if (s->sk->r_ > 0) od.lcm_r = od.lcm_r / gcd64(od.lcm_r, s->sk->r_) * s->sk->r_;
   }
@@ -232,6 +233,12 @@ static void run_union(Report& rep, USys sys, size_t leaf_cap) {
   std::vector<const OpndDist*> od;
   for (size_t o = 0; o < sys.specs.size(); ++o) {
     od.push_back(&operand_dist(sys.specs[o], o, rep));
+    if (!od.back()->failed.empty()) {   // no union over operands whose construction is itself in violation: say so once, as that violation
+      const size_t bar = od.back()->failed.find('|');
+      rep.violation(std::string(PROP) + "|" + sys.name() + "|operand:" + od.back()->failed.substr(0, bar), od.back()->failed.substr(bar + 1), sys.name(), "operand " + str(o));
+      rep.scenarios.push_back(sys.name() + ": not explored, operand " + str(o) + " already fails " + od.back()->failed.substr(0, bar));
+      return;
+    }
     for (size_t j = 0; j < sys.specs[o].w.size(); ++j) sumw += sys.specs[o].w[j];
     kmax = std::max(kmax, sys.specs[o].k); L = L / gcd64(L, od[o]->lcm_r) * od[o]->lcm_r;
   }
